@@ -89,5 +89,7 @@ let rec eval case impl =
     (* recorded finding F37: a user-supplied Transfer-Encoding whose stored fields are not exactly one `chunked`
        (Spec/PrinterSpecGen.v printable_st; bytes_printable_iff: exactly then the output is not one correctly framed message) *)
     let tag = if M.printable_st stored_raw then "-" else "F37" in
+    (* the model is faithful to F37: an output that also differs from the model's is something else than the recorded finding *)
+    let tag = if tag = "F37" && model <> icanon then "-" else tag in
     ((if model = icanon then impl else model), if ok then [] else [("C08", tag)])
   | _ -> failwith "bad printer case"
